@@ -201,7 +201,7 @@ def env():
             self.target = np.asarray(target, dtype=float)
 
         def calculate(self, context):
-            return (self.target - context.atoms.positions[context._moving_indices].mean(axis=0))[None, :]
+            return (self.target - context.atoms.positions[common.get_moving(context)].mean(axis=0))[None, :]
 
         def to_dict(self):
             return {"name": "Place"}
@@ -777,7 +777,10 @@ def ensemble_specs(tier):
         ("harmonic", {"op": "ball", "n": 3, "T": 300.0, "k": 1.0, "step": 2.0}, 5000 if q else 50000),
         ("dipole", {"op": "rotation", "x": 2.0, "T": 300.0, "species": "CO"}, 12000 if q else 150000),
         ("isobaric", {"n": 3, "T": 300.0, "vmean": 1000.0, "max_strain": 0.25}, 12000 if q else 150000),
-        ("gc", {"species": "Ar", "lam": 6.0, "T": 300.0, "vol": 1000.0, "op": "translation", "n0": 6}, 12000 if q else 150000),
+        # accessible volume = half the cell (what the acceptance rule is told; insertions still land anywhere in the cell,
+        # which an ideal gas cannot tell), and the SAME simulation object first used at another temperature
+        ("gc", {"species": "Ar", "lam": 6.0, "T": 300.0, "vol": 1000.0, "op": "translation", "n0": 6, "vacc": 0.5,
+                "T0": 650.0}, 12000 if q else 150000),
     ]
     if not q:
         specs += [
@@ -862,11 +865,23 @@ def run_ensemble(key, p, steps, seed):
         mass = float(t.get_masses().sum())
         lam = p["lam"]
         cell = np.eye(3) * p["vol"] ** (1.0 / 3.0)
-        mu = kT * (math.log(lam) + 3 * log_wavelength(mass, p["T"]) - math.log(p["vol"]))
+        vacc = p["vol"] * p.get("vacc", 1.0)
+        mu = kT * (math.log(lam) + 3 * log_wavelength(mass, p["T"]) - math.log(vacc))
         c = {"sys": "gc", "calc": "zero", "T": p["T"], "species": p["species"], "mu": mu, "op": p["op"], "pbc": True,
              "cell": cell.ravel().tolist(), "n": p["n0"], "nframe": p.get("nframe", 0), "gseed": seed ^ 0x6C}
         state = initial_state(c)
         mc = make_sim(c, state, seed, max_cycles=1)
+        if "vacc" in p:
+            mc.accessible_volume = vacc
+        if "T0" in p:
+            # a first stretch at another state point (same <N>): what was computed there must not stick to any object
+            kT0 = E["kB"] * p["T0"]
+            mc.temperature = p["T0"]
+            mc.chemical_potential = kT0 * (math.log(lam) + 3 * log_wavelength(mass, p["T0"]) - math.log(vacc))
+            for _ in mc.srun(300):
+                pass
+            mc.temperature = p["T"]
+            mc.chemical_potential = mu
         nf = c["nframe"]
         if p.get("mixed"):
             mc.add_move(E["DisplacementMove"](np.array(state["labels"], dtype=int), E["Ball"](1.0)), name="d")
